@@ -27,15 +27,10 @@ var bg = context.Background()
 // ---------------------------------------------------------------- state comparison
 
 func (db *mDB) clone() *mDB {
-	c := &mDB{ledger: db.ledger, committed: db.committed.clone(), txSeq: db.txSeq, logSeq: db.logSeq,
-		symbolicInitial: db.symbolicInitial, initial: map[string]map[string]*ledger.Volumes{}, state: db.state}
-	for a, byAsset := range db.initial {
-		c.initial[a] = map[string]*ledger.Volumes{}
-		for as, v := range byAsset {
-			c.initial[a][as] = v // shared on purpose: the same symbolic pre-state
-		}
-	}
-	return c
+	// the lazily populated table of initial (symbolic) volumes is shared on purpose:
+	// a copy stands for the same ledger at an earlier/alternative point of its history
+	return &mDB{ledger: db.ledger, committed: db.committed.clone(), txSeq: db.txSeq, logSeq: db.logSeq,
+		symbolicInitial: db.symbolicInitial, initial: db.initial, state: db.state}
 }
 
 func sortedKeys[V any](m map[string]V) []string {
@@ -499,6 +494,9 @@ func checkWet(sym bool, name string, faults int) {
 	last := db.committed.logs[len(db.committed.logs)-1]
 	verifAssert("C08:log-id-increases", *last.ID > *pre.committed.logs[len(pre.committed.logs)-1].ID && *last.ID == *r.log.ID)
 	verifAssert("C08:not-an-idempotency-hit", !r.hit)
+	ref := refFromState(pre, pre.committed)
+	ref.apply(pre, r.log)
+	verifAssert("C08:payload-determines-state", ref.diff(db, db.committed) == "")
 	verifAssert("C08:replay-reproduces-state", replayEquivalent(pre, db, r.log) == "")
 	verifReach("succeeded")
 	verifReach("end")
